@@ -2552,6 +2552,154 @@ fn run_serde(case: &Value) -> Value {
            "values": store_json(&s0), "values_reread": r1b.as_ref().ok().map(store_json)})
 }
 
+
+// ---------------------------------------------------------------------------
+// unpack kind (C19): real Cache + fetch_package on a crafted .crate, cut short, then retried
+
+fn build_archive(entries: &[Value]) -> Vec<u8> {
+    use std::io::Write;
+    let mut tarbytes: Vec<u8> = Vec::new();
+    for e in entries {
+        let mut header = tar::Header::new_gnu();
+        let raw = e["path"].as_str().unwrap().as_bytes();
+        {
+            // write the raw name bytes ourselves: tar's setters refuse hostile paths
+            let name = &mut header.as_old_mut().name;
+            for b in name.iter_mut() {
+                *b = 0;
+            }
+            let n = raw.len().min(name.len());
+            name[..n].copy_from_slice(&raw[..n]);
+        }
+        let content = e["content"].as_str().unwrap_or("").as_bytes().to_vec();
+        match e["kind"].as_str().unwrap_or("file") {
+            "dir" => {
+                header.set_entry_type(tar::EntryType::Directory);
+                header.set_size(0);
+            }
+            "symlink" => {
+                header.set_entry_type(tar::EntryType::Symlink);
+                header.set_size(0);
+                let t = e["target"].as_str().unwrap().as_bytes();
+                let ln = &mut header.as_old_mut().linkname;
+                let n = t.len().min(ln.len());
+                ln[..n].copy_from_slice(&t[..n]);
+            }
+            "hardlink" => {
+                header.set_entry_type(tar::EntryType::Link);
+                header.set_size(0);
+                let t = e["target"].as_str().unwrap().as_bytes();
+                let ln = &mut header.as_old_mut().linkname;
+                let n = t.len().min(ln.len());
+                ln[..n].copy_from_slice(&t[..n]);
+            }
+            _ => {
+                header.set_entry_type(tar::EntryType::Regular);
+                header.set_size(e["size"].as_u64().unwrap_or(content.len() as u64));
+            }
+        }
+        header.set_mode(0o644);
+        header.set_mtime(0);
+        header.set_cksum();
+        tarbytes.extend_from_slice(header.as_bytes());
+        if e["kind"].as_str().unwrap_or("file") == "file" {
+            tarbytes.extend_from_slice(&content);
+            let pad = (512 - content.len() % 512) % 512;
+            tarbytes.extend(std::iter::repeat(0u8).take(pad));
+        }
+    }
+    tarbytes.extend(std::iter::repeat(0u8).take(1024));
+    let mut gz = flate2::write::GzEncoder::new(Vec::new(), flate2::Compression::none());
+    gz.write_all(&tarbytes).unwrap();
+    gz.finish().unwrap()
+}
+
+fn tree(root: &std::path::Path) -> BTreeMap<String, String> {
+    fn walk(base: &std::path::Path, dir: &std::path::Path, out: &mut BTreeMap<String, String>) {
+        let Ok(rd) = std::fs::read_dir(dir) else { return };
+        for ent in rd.flatten() {
+            let p = ent.path();
+            let rel = p.strip_prefix(base).unwrap().to_string_lossy().into_owned();
+            let Ok(md) = std::fs::symlink_metadata(&p) else { continue };
+            if md.file_type().is_symlink() {
+                out.insert(rel, format!("symlink:{}", std::fs::read_link(&p).map(|t| t.to_string_lossy().into_owned()).unwrap_or_default()));
+            } else if md.is_dir() {
+                out.insert(rel.clone() + "/", "dir".to_owned());
+                walk(base, &p, out);
+            } else {
+                let c = std::fs::read(&p).unwrap_or_default();
+                out.insert(rel, format!("file:{}", String::from_utf8_lossy(&c).chars().take(40).collect::<String>()));
+            }
+        }
+    }
+    let mut out = BTreeMap::new();
+    walk(root, root, &mut out);
+    out
+}
+
+fn run_unpack(case: &Value) -> Value {
+    let name = case["name"].as_str().unwrap_or("foo");
+    let version = case["version"].as_str().unwrap_or("1.0.0");
+    let tmp = tempfile::tempdir().unwrap();
+    let cache_dir = tmp.path().join("cache");
+    let cargo_home = tmp.path().join("cargo-home");
+    std::fs::create_dir_all(&cargo_home).unwrap();
+    std::env::set_var("CARGO_HOME", &cargo_home);
+    // things that must never be touched
+    std::fs::create_dir_all(cache_dir.join("src").join("other-1.0.0")).unwrap();
+    std::fs::write(cache_dir.join("src").join("other-1.0.0").join("lib.rs"), "other crate").unwrap();
+    std::fs::write(cache_dir.join("src").join("other-1.0.0").join(".cargo-ok"), "ok").unwrap();
+    std::fs::write(tmp.path().join("outside.txt"), "outside").unwrap();
+    std::fs::create_dir_all(cache_dir.join("cache")).unwrap();
+
+    let metadata = build_metadata(&json!({"packages": [{"name": "wsaaa", "version": "1.0.0", "source": "path", "workspace": true, "deps": []}]}));
+    let crate_file = cache_dir.join("cache").join(format!("{name}-{version}.crate"));
+    let full = build_archive(case["entries"].as_array().unwrap());
+    let vv: VetVersion = version.parse().unwrap();
+    let fetch = |bytes: &[u8]| -> (String, Option<String>) {
+        std::fs::write(&crate_file, bytes).unwrap();
+        let mut cfg = mock_cfg(&metadata);
+        cfg._rest.mock_cache = false;
+        cfg._rest.cache_dir = cache_dir.clone();
+        let r = catch_unwind(AssertUnwindSafe(|| {
+            let cache = match crate::storage::Cache::acquire(&cfg) {
+                Ok(c) => c,
+                Err(e) => return (format!("cache-error {e:?}"), None),
+            };
+            let r = tokio::runtime::Handle::current().block_on(cache.fetch_package(&metadata, None, name, &vv));
+            match r {
+                Ok(p) => ("ok".to_owned(), Some(p.strip_prefix(tmp.path()).map(|x| x.to_string_lossy().into_owned()).unwrap_or_else(|_| p.to_string_lossy().into_owned()))),
+                Err(e) => (format!("err {}", format!("{e:?}").chars().take(160).collect::<String>()), None),
+            }
+        }));
+        match r {
+            Ok(x) => x,
+            Err(p) => (format!("panic {}", panic_message(&p)), None),
+        }
+    };
+    let before = tree(tmp.path());
+    let mut steps = Vec::new();
+    // 1. the (possibly truncated) archive
+    let cut = case["truncate_at"].as_u64().map(|c| (c as usize).min(full.len()));
+    let first: &[u8] = match cut {
+        Some(c) => &full[..c],
+        None => &full[..],
+    };
+    let (r1, p1) = fetch(first);
+    let t1 = tree(tmp.path());
+    steps.push(json!({"result": r1, "path": p1, "tree": t1}));
+    // 2. retry with the intact archive
+    let (r2, p2) = fetch(&full);
+    let t2 = tree(tmp.path());
+    steps.push(json!({"result": r2, "path": p2, "tree": t2}));
+    // 3. reference: the intact archive into a fresh cache directory
+    let _ = std::fs::remove_dir_all(cache_dir.join("src").join(format!("{name}-{version}")));
+    let (r3, p3) = fetch(&full);
+    let t3 = tree(tmp.path());
+    steps.push(json!({"result": r3, "path": p3, "tree": t3}));
+    json!({"status": "ok", "before": before, "steps": steps, "archive_len": full.len()})
+}
+
 fn panic_message(p: &Box<dyn std::any::Any + Send>) -> String {
     if let Some(s) = p.downcast_ref::<String>() {
         s.clone()
@@ -2575,6 +2723,7 @@ fn run_case(case: &Value) -> Value {
         "suggest" => run_suggest(case),
         "validate" => run_validate(case),
         "serde" => run_serde(case),
+        "unpack" => run_unpack(case),
         other => json!({"status": "harness_error", "error": format!("unknown kind {other}")}),
     }));
     let mut v = match r {
